@@ -54,8 +54,16 @@ class Outcome(object):
     def ok(self):
         return not self.violations
 
+    # fields of a violation record that identify it; measured magnitudes (err, rel, ...) are reported but kept
+    # out of the digest: their last bits may differ between processes (BLAS / SIMD summation order depends on
+    # buffer alignment), which says nothing about the run being the same execution
+    STABLE_KEYS = ("kind", "what", "op", "kernel", "space", "step", "region", "region_index_in_kernel", "which",
+                   "where", "elements", "dof", "exc", "history_exc", "model_exc", "n_iterations", "schedule",
+                   "thread_counts_differing_from_1", "flags")
+
     def digest(self):
-        return rng.digest({"events": self.events, "violations": self.violations})
+        stable = [{k: v[k] for k in self.STABLE_KEYS if k in v} for v in self.violations]
+        return rng.digest({"events": self.events, "violations": stable})
 
     def to_json(self):
         return {
